@@ -1,4 +1,5 @@
 import Model.Rules
+import Model.Checker
 /-!
 # The Python primitives that the translated rule bodies are made of
 
@@ -17,6 +18,8 @@ inductive V where
   | inq (q : Option Inquiry)     -- the `inquiry` argument: an `Inquiry` object, or `None`
   | rule (r : Rule)              -- a rule object held by a composition rule
   | seq (xs : List V)            -- a tuple / list of such objects (`self.rules`, the answers of a comprehension)
+  | policy (p : Policy)          -- a `Policy` object (the `policy` argument of a checker)
+  | other                        -- an object of some other class (an attribute dictionary among string elements, ...)
 
 instance : Inhabited V := ⟨.py .none⟩
 
@@ -30,6 +33,8 @@ def truth : V → Bool
   | .inq q => q.isSome              -- an object without `__bool__` / `__len__` is true, `None` is false
   | .rule _ => true
   | .seq xs => !xs.isEmpty
+  | .policy _ => true
+  | .other => true
 
 /-- the answer of `satisfied` as the checkers see it: its truthiness, or the exception -/
 def toR (m : M) : R := m.map truth
@@ -238,5 +243,54 @@ def methSatisfied (r w q : M) : M :=
     | .rule r, .py w, .inq q => liftR (Rule.eval r w q)
     | .rule r, .py w, .py .none => liftR (Rule.eval r w Option.none)
     | _, _, _ => raiseM
+
+/-! ### checkers: the policy object, its element lists, indexing and slicing of strings -/
+
+/-- a policy element as the checker loop sees it -/
+def elemV : Elem → V
+  | .str s => .py (.str s)
+  | .rule r => .rule r
+  | .attrs _ => .other
+
+/-- `getattr(policy, field, default)` with a computed field name -/
+def getattrDynM (a name dflt : M) : M :=
+  bindM a fun x => bindM name fun n => bindM dflt fun d => match x, n with
+    | .policy p, .py (.str cs) =>
+      if cs = "actions".toList then .ok (.seq (p.actions.map elemV))
+      else if cs = "subjects".toList then .ok (.seq (p.subjects.map elemV))
+      else if cs = "resources".toList then .ok (.seq (p.resources.map elemV))
+      else .ok d
+    | _, _ => .ok d
+
+/-- `policy.start_tag` / `policy.end_tag` -/
+def attrPolicyM (a : M) (name : String) : M :=
+  bindM a fun x => match x with
+    | .policy p => (match name with
+        | "start_tag" => .ok (.py (.str [p.stag]))
+        | "end_tag" => .ok (.py (.str [p.etag]))
+        | _ => raiseM)
+    | _ => attrM (.ok x) name
+
+/-- `type(x) != str` -/
+def typeIsNotStrM (a : M) : M :=
+  bindM a fun x => ofBool (match x with | .py (.str _) => false | _ => true)
+
+/-- the empty list literal `[]` -/
+def cEmptyList : M := .ok (.seq [])
+
+/-- `s[i]` for a string and a constant index, negative indices counting from the end -/
+def strIndexM (a : M) (i : Int) : M :=
+  bindM a fun x => match x with
+    | .py (.str cs) =>
+      let j : Int := if i < 0 then (cs.length : Int) + i else i
+      if j < 0 then raiseM
+      else (match cs[j.toNat]? with | some c => .ok (.py (.str [c])) | Option.none => raiseM)
+    | _ => subscriptM (.ok x) (cInt i)
+
+/-- `s[1:-1]` for a string -/
+def strSlice1m1M (a : M) : M :=
+  bindM a fun x => match x with
+    | .py (.str cs) => .ok (.py (.str ((cs.drop 1).dropLast)))
+    | _ => raiseM
 
 end Vakt.PyPrim
